@@ -64,7 +64,8 @@ MUTANTS += [
     ("c15-payload-only-once", "C15", [(D, "            _LOGGER.debug(\"bulk_write(%d): %r\", len(msg.data), msg.data)\n            self._write_all(msg.data, adb_info)", "            _LOGGER.debug(\"bulk_write(%d): %r\", len(msg.data), msg.data)\n            self._transport.bulk_write(msg.data, adb_info.transport_timeout_s)")]),
     ("c16-async-stat-no-clse", "C16", [(A, "        _, (mode, size, mtime), _ = await self._filesync_read([constants.STAT], adb_info, filesync_info)\n        await self._clse(adb_info)", "        _, (mode, size, mtime), _ = await self._filesync_read([constants.STAT], adb_info, filesync_info)")]),
     ("c16-async-different-exception", "C16", [(A, "raise exceptions.InvalidResponseError('Expected one of %s, got %s' % (expected_ids, command_id))", "raise exceptions.InvalidCommandError('Expected one of %s, got %s' % (expected_ids, command_id))")]),
-    ("c16-sync-only-timeout-tweak", "C16", [(D, "            if time.time() - start > adb_info.read_timeout_s:\n                break", "            if time.time() - start >= adb_info.read_timeout_s:\n                break")]),
+    # removed: ("c16-sync-only-timeout-tweak", `>` -> `>=` on the float deadline in the sync read()): differs only when the elapsed virtual time equals
+    # read_timeout_s exactly; it was killed by such a coincidence in earlier sweeps and survived the last one -- an equivalent mutant for practical purposes (DESIGN.md 10.5)
 ]
 MUTANTS += [
     ("c11-no-deadline-in-read-bytes", "C11", [(D, "            if time.time() - start > adb_info.read_timeout_s:\n                # Timeout\n                raise exceptions.AdbTimeoutError(\"Timeout: read {} of {} bytes", "            if False:\n                # Timeout\n                raise exceptions.AdbTimeoutError(\"Timeout: read {} of {} bytes")]),
